@@ -49,10 +49,10 @@ func init() {
 		Assumptions: []string{"strings that contain a dotted quad but are not exactly a.b.c.d[:port] in canonical decimal are don't-care (the statement is silent about them)"},
 		Plan:        func(tier string) []Batch { return same(n(tier, 16, 32), Batch{Timeout: 30 * time.Minute, Procs: 1}) }}
 	specs["C16"] = &Spec{ID: "C16", Level: "exploration", Parallel: 8,
-		Assumptions: []string{hookAssumption, "DateTime.Before is judged for instants from 1970 on, as the property states"},
+		Assumptions: []string{hookAssumption, "DateTime.Before is judged for instants from 1970 on, as the property states", "date order is also checked in processes started with TZ=<zone> (16 zones quick, every zone thorough); days with no instant in the zone are skipped"},
 		Plan: func(tier string) []Batch {
 			b := same(n(tier, 8, 16), Batch{Timeout: 30 * time.Minute})
-			return append(b, same(n(tier, 2, 4), Batch{Mode: "loopback", Timeout: 30 * time.Minute, Procs: 4})...)
+			return append(b, zoneBatches(n(tier, 16, 0), "tz", 20*time.Minute)...)
 		}}
 }
 
